@@ -152,4 +152,49 @@ theorem sie_complete (g : Glue) (t0 t1 : Int) (e : Entry) (reqH : Header) (hle :
     have : (parseCC reqH).staleIfError = some n := hn
     rw [this]; simp only [decide_eq_true_eq]; unfold satAdd at hw ⊢; exact hw
 
+
+/-- C09 core for requests that carry directives: as long as the request neither demands validation
+    (no-cache) nor shortens the lifetime (max-age, min-fresh) — whatever else it carries: max-stale,
+    only-if-cached, no-store, no-transform, extensions — a response that is fresh by the RFC definitions
+    is served from the store without contacting the origin -/
+theorem fresh_hits_any_request (cfg : Cfg) (t0 : Int) (req : Req) (e : Entry) (key : Str) (refs : List Ref) (i : Nat)
+    (hnc : (parseCC req.header).noCache = false) (hma : (parseCC req.header).maxAge = none)
+    (hmf : (parseCC req.header).minFresh = none)
+    (hT : TimesOK e) (hs : e.resp.status ≠ 304) (d : Int)
+    (hd : Spec.httpTime cfg.glue.parseTime e.resp.header sDate = some d)
+    (hdoc : Spec.heuristicallyCacheable.contains e.resp.status = true → isHeuristicStatus e.resp.status = true)
+    (hncu : (parseCC e.resp.header).noCacheUnqualified = false)
+    (hfresh : Spec.isFresh modelReader cfg.glue.parseTime (Spec.storedOfEntry e) t0 = true)
+    (tr : List Step) (r : Result) (h : Run (handleCacheHit cfg t0 req e key refs i) tr r) :
+    tr = [] ∧ ∃ f, r = .resp (serveFromCache f t0 e (parseCC e.resp.header)) := by
+  have hlt : currentAge cfg.glue t0 e < responseLifetime cfg.glue e (parseCC e.resp.header) := by
+    rw [life_eq cfg.glue e hs d hd hdoc, age_eq cfg.glue t0 e hT]
+    unfold Spec.isFresh at hfresh
+    simpa using hfresh
+  have hrl : requestLifetime (responseLifetime cfg.glue e (parseCC e.resp.header)) (parseCC req.header) =
+      responseLifetime cfg.glue e (parseCC e.resp.header) := by unfold requestLifetime; rw [hma]
+  have hmfs : minFreshStale (parseCC req.header) (responseLifetime cfg.glue e (parseCC e.resp.header)) (currentAge cfg.glue t0 e) = false := by
+    unfold minFreshStale; rw [hmf]
+  have hst : (calculateFreshness cfg.glue t0 e (parseCC req.header) (parseCC e.resp.header)).isStale = false := by
+    unfold calculateFreshness
+    have h0 : (parseCC req.header).maxAge ≠ some 0 := by rw [hma]; simp
+    simp only [h0, ↓reduceIte, hrl, hmfs, Bool.false_eq_true]
+    unfold staleAfterMaxStale
+    have : decide (currentAge cfg.glue t0 e ≥ responseLifetime cfg.glue e (parseCC e.resp.header)) = false := by
+      simp; omega
+    simp [this]
+  have htf : transportFreshness cfg.glue t0 e (parseCC req.header) (parseCC e.resp.header) =
+      (calculateFreshness cfg.glue t0 e (parseCC req.header) (parseCC e.resp.header), false) := by
+    unfold transportFreshness; rw [hma]
+  unfold handleCacheHit at h
+  simp only [htf] at h
+  have hmv : mustValidateOf (calculateFreshness cfg.glue t0 e (parseCC req.header) (parseCC e.resp.header))
+      (parseCC req.header) (parseCC e.resp.header) = false := by
+    unfold mustValidateOf
+    rw [hst, hncu, hnc]; rfl
+  simp only [hmv, Bool.or_self, Bool.false_eq_true, ↓reduceIte, hst, Bool.not_false, Bool.true_and, hnc, Bool.and_true,
+    Bool.or_true] at h
+  split at h <;> (cases h; exact ⟨rfl, _, rfl⟩)
+
+
 end Httpcache
